@@ -47,15 +47,34 @@ Definition evaluate (r : role) (my_id target : id) (c : option cert) (claimed : 
   | Ok (Some t) => Accept t (i_am_master my_id t)
   end.
 
+(* What a TLS peer can put in front of us: the LEAF certificate is the one whose private key the handshake proves it
+   holds (trusted); besides it the peer may send any number of further certificates -- e.g. other Tubs' public
+   certificates -- which prove nothing. *)
+Record presented := { leaf : option cert; extras : list cert }.
+
+(* crypto.peerFromTransport = twisted Certificate.peerFromTransport: the handle's get_peer_certificate(), i.e. the leaf;
+   CertificateError when there is none.  Which certificate is chosen is read from crypto.py (peer_cert_choice). *)
+Definition peer_from_transport (p : presented) : res cert :=
+  match peer_cert_choice with
+  | LeafOfHandshake => match leaf p with Some c => Ok c | None => Exc "CertificateError" end
+  end.
+
+(* handleENCRYPTED for a well-formed hello: certificate from the transport, then evaluateHello *)
+Definition handle_hello (r : role) (my_id target : id) (p : presented) (claimed : option id) : verdict :=
+  match peer_from_transport p with
+  | Exc w => Reject w
+  | Ok c => evaluate r my_id target (Some c) claimed
+  end.
+
 (* ------------------------------------------------------------------ one connection attempt, both ends *)
 Record session_cfg := {
   cl_id : id;                 (* the dialling Tub *)
   dialled : id;               (* tub id in the FURL given to getReference (= connector.target) *)
   requested : id;             (* id in the GET line as it reaches the listener *)
   srv_id : id;                (* the listening Tub *)
-  cert_c : option cert;       (* peer certificate reported to the client *)
+  pres_c : presented;         (* what the server presents to the client at the TLS layer *)
   claim_c : option id;        (* my-tub-id of the hello the client receives *)
-  cert_s : option cert;       (* peer certificate reported to the server *)
+  pres_s : presented;         (* what the client presents to the server *)
   claim_s : option id         (* my-tub-id of the hello the server receives *)
 }.
 
@@ -68,8 +87,8 @@ Definition session (s : session_cfg) : endobs * endobs :=
   match server_lookup (requested s) (srv_id s) with
   | Exc w => (obs_failed "BananaError", obs_failed w)     (* client reads `HTTP/1.1 500` instead of 101 *)
   | Ok _ =>
-    let vc := evaluate Client (cl_id s) (dialled s) (cert_c s) (claim_c s) in
-    let vs := evaluate Server (srv_id s) [] (cert_s s) (claim_s s) in
+    let vc := handle_hello Client (cl_id s) (dialled s) (pres_c s) (claim_c s) in
+    let vs := handle_hello Server (srv_id s) [] (pres_s s) (claim_s s) in
     match vc, vs with
     | Reject wc, Reject ws => (obs_failed wc, obs_failed ws)
     | Reject wc, Accept ts ms =>
@@ -92,7 +111,7 @@ Definition session (s : session_cfg) : endobs * endobs :=
   end.
 
 (* ------------------------------------------------------------------ the Tub's table over a whole history *)
-Record conn := { conn_cert : option cert;   (* peer certificate of the transport the Broker runs over *)
+Record conn := { conn_cert : option cert;   (* LEAF certificate of the transport the Broker runs over *)
                  conn_loop : bool }.         (* loopback Broker pair (no transport, the Tub talking to itself) *)
 
 Definition table := list (id * conn).        (* Tub.brokers, keyed by TubRef = tub id *)
@@ -111,7 +130,7 @@ Definition broker_attached (k : id) (c : conn) (t : table) : table :=
   if tbl_mem k t then t else (k, c) :: t.
 
 Inductive event :=
-  | Negotiated (r : role) (target : id) (c : option cert) (claimed : option id)
+  | Negotiated (r : role) (target : id) (p : presented) (claimed : option id)
                (decision_arrives : bool)     (* non-deciding end: does the peer's decision arrive? *)
                (old_dropped : bool)          (* an existing connection under the same key is shut down first
                                                 (compareOfferAndExisting / acceptDecisionVersion1) *)
@@ -120,14 +139,14 @@ Inductive event :=
 
 Definition step (my_id : id) (t : table) (e : event) : table :=
   match e with
-  | Negotiated r target c claimed arrives dropped =>
-      match evaluate r my_id target c claimed with
+  | Negotiated r target p claimed arrives dropped =>
+      match handle_hello r my_id target p claimed with
       | Reject _ => t
       | Accept their master =>
           if master || arrives then
             let k := attach_key (is_client r) target their in
             let t' := if dropped then tbl_remove k t else t in
-            broker_attached k {| conn_cert := c; conn_loop := false |} t'
+            broker_attached k {| conn_cert := leaf p; conn_loop := false |} t'
           else t
       end
   | Detached k => tbl_remove k t
@@ -142,13 +161,104 @@ Definition get_broker (t : table) (k : id) : option conn := tbl_get k t.
 (* a my-reference with a URL naming `url_id` arriving over the connection registered under k *)
 Definition accept_inbound_ref (k url_id : id) : bool := is_ok (inbound_url_check k url_id).
 
+(* ------------------------------------------------------------------ the receive loop against a peer that keeps sending
+   Negotiation.dataReceived from the ENCRYPTED phase on, fed by an arbitrary peer: any sequence of header blocks in
+   any chunking, also after one of them was rejected (the error handler only calls loseConnection(); bytes that are
+   already on their way are still delivered until connectionLost).  The phase in which evaluateHello runs, the phase
+   the non-deciding end waits in, and what the error handler does to the phase are read from the source
+   (phase_during_evaluate_hello, slave_phase_after_accept, phase_set_by_error_handler in gen/IdentityGen.v). *)
+Inductive blk :=
+  | BHello (claimed : option id)       (* parses, has banana-negotiation-range: a hello *)
+  | BDecision (acceptable : bool)      (* parses, has banana-decision-version; acceptable = acceptDecision returns *)
+  | BError                             (* parses, has an `error` key *)
+  | BJunk.                             (* does not parse (parseLines raises) *)
+
+Record nstate := { n_phase : phase; n_their : option id;      (* self.theirTubRef *)
+                   n_attached : list id;                       (* keys given to Tub.brokerAttached, latest first *)
+                   n_buf : list blk }.                         (* self.buffer, in blocks *)
+
+Definition n_init : nstate := {| n_phase := PhEncrypted; n_their := None; n_attached := []; n_buf := [] |}.
+
+Definition exc_phase (at_raise : phase) : phase :=
+  match phase_set_by_error_handler with Some ph => ph | None => at_raise end.
+
+Definition with_phase (st : nstate) (ph : phase) : nstate :=
+  {| n_phase := ph; n_their := n_their st; n_attached := n_attached st; n_buf := n_buf st |}.
+Definition with_buf (st : nstate) (b : list blk) : nstate :=
+  {| n_phase := n_phase st; n_their := n_their st; n_attached := n_attached st; n_buf := b |}.
+
+(* self.theirTubRef is assigned after the certificate/claim tests and the assert, before the client's wrong-Tub test:
+   a hello rejected only by that last test has already stored it *)
+Definition their_after_rejected_evaluation (p : presented) (claimed old : option id) : option id :=
+  match leaf p, claimed with
+  | Some c, Some (x :: t) => if list_eqb (tubid_of c) (x :: t) then Some (x :: t) else old
+  | _, _ => old
+  end.
+
+(* one header block; result: new state and whether an exception reached dataReceived's handler *)
+Definition handle_block (r : role) (my_id target : id) (p : presented) (st : nstate) (b : blk) : nstate * bool :=
+  match n_phase st with
+  | PhEncrypted =>
+      match peer_from_transport p with
+      | Exc _ => (with_phase st (exc_phase (n_phase st)), true)
+      | Ok _ =>
+        match b with
+        | BJunk | BError => (with_phase st (exc_phase (n_phase st)), true)
+        | BDecision _ => (with_phase st (exc_phase phase_during_evaluate_hello), true)   (* evaluateHello: no range *)
+        | BHello claimed =>
+            match handle_hello r my_id target p claimed with
+            | Reject _ =>
+                ({| n_phase := exc_phase phase_during_evaluate_hello;
+                    n_their := their_after_rejected_evaluation p claimed (n_their st);
+                    n_attached := n_attached st; n_buf := n_buf st |}, true)
+            | Accept t master =>
+                if master
+                then ({| n_phase := PhBanana; n_their := Some t;
+                         n_attached := attach_key (is_client r) target t :: n_attached st; n_buf := n_buf st |}, false)
+                else ({| n_phase := slave_phase_after_accept; n_their := Some t;
+                         n_attached := n_attached st; n_buf := n_buf st |}, false)
+            end
+        end
+      end
+  | PhDeciding =>
+      match b, n_their st with
+      | BDecision true, Some t =>
+          ({| n_phase := PhBanana; n_their := n_their st;
+              n_attached := attach_key (is_client r) target t :: n_attached st; n_buf := n_buf st |}, false)
+      | _, _ => (with_phase st (exc_phase (n_phase st)), true)
+      end
+  | PhBanana | PhAbandoned => (st, false)
+  end.
+
+Fixpoint drain (r : role) (my_id target : id) (p : presented) (st : nstate) (buf : list blk) {struct buf} : nstate :=
+  match buf with
+  | [] => with_buf st []
+  | b :: rest =>
+      match n_phase st with
+      | PhBanana | PhAbandoned => with_buf st []          (* handed to the Broker / ignored *)
+      | _ => let '(st', raised) := handle_block r my_id target p st b in
+             if raised then with_buf st' rest else drain r my_id target p st' rest
+      end
+  end.
+
+Definition recv_chunk (r : role) (my_id target : id) (p : presented) (st : nstate) (chunk : list blk) : nstate :=
+  match n_phase st with
+  | PhBanana | PhAbandoned => st
+  | _ => drain r my_id target p st (n_buf st ++ chunk)
+  end.
+
+Definition recv_all (r : role) (my_id target : id) (p : presented) (chunks : list (list blk)) : nstate :=
+  fold_left (recv_chunk r my_id target p) chunks n_init.
+
 End Identity.
 
 Arguments cl_id {cert} s.
 Arguments dialled {cert} s.
 Arguments requested {cert} s.
 Arguments srv_id {cert} s.
-Arguments cert_c {cert} s.
+Arguments pres_c {cert} s.
 Arguments claim_c {cert} s.
-Arguments cert_s {cert} s.
+Arguments pres_s {cert} s.
 Arguments claim_s {cert} s.
+Arguments leaf {cert} p.
+Arguments extras {cert} p.
